@@ -261,6 +261,14 @@ pub fn run(prop: &'static str, tier: &str) -> i32 {
                 }
             }
         }
+        // literal values that occur in the library's own source as placeholders of the default claims /
+        // in its documentation: they are instants like any other (all in the past)
+        for lit in ["2019-01-01T00:00:00+00:00", "2019-01-01T00:00:00Z", "2019-01-01T00:00:00.000+00:00", "1970-01-01T00:00:00Z", "0001-01-01T00:00:00Z"] {
+            for c in ["exp", "nbf", "iat"] {
+                evaluate(prop, &TimeCase { proto: *p, now_ns: Some(now.to_string()), payload: payload_for(c, lit) }, &mut acc);
+                acc.choice_points += 1;
+            }
+        }
         for v in non_timestamp_values(claim) {
             evaluate(prop, &TimeCase { proto: *p, now_ns: Some(now.to_string()), payload: format!("{{\"{}\":{}}}", claim, v) }, &mut acc);
             acc.choice_points += 1;
